@@ -161,7 +161,7 @@ impl GenCfg {
             f_async_helpers: on(0.6),
             f_string_natives: on(0.7),
             f_symbol: on(0.3),
-            f_timeish: false,
+            f_timeish: on(0.5),
             f_global_effects: false,
             f_break: true,
         }
@@ -182,6 +182,11 @@ enum Ty {
     AFun,
     /// array whose elements are fresh objects `{ v: number }`
     OArr,
+    /// result of a hole call that was not awaited: a plain value (stub / immediate answer)
+    /// or a host promise (deferred answer); only `await` and Promise.all may consume it
+    HVal,
+    /// synchronous function whose body issues a (blocking) order without await
+    SFun,
 }
 
 #[derive(Clone)]
@@ -214,6 +219,8 @@ pub struct Gen<'a> {
     uniq_prefix: String,
     has_async_method: bool,
     has_static_async: bool,
+    has_ctor_hole: bool,
+    awaited_hole: bool,
 }
 
 pub const SHOW_PRELUDE: &str = r#"function __show(v: any, d: number = 0, seen: any[] = []): string {
@@ -305,6 +312,8 @@ impl<'a> Gen<'a> {
             uniq_prefix: uniq_prefix.to_string(),
             has_async_method: false,
             has_static_async: false,
+            has_ctor_hole: false,
+            awaited_hole: false,
         }
     }
 
@@ -355,6 +364,15 @@ impl<'a> Gen<'a> {
     // ───────────── holes ─────────────
 
     fn hole(&mut self) -> Option<String> {
+        self.awaited_hole = true;
+        let r = self.hole_raw(false).map(|h| format!("(await {})", h));
+        self.awaited_hole = false;
+        r
+    }
+
+    /// A hole call without `await`. `immediate_only`: the answer must be a plain value or an
+    /// error (used where the program reads the result synchronously).
+    fn hole_raw(&mut self, immediate_only: bool) -> Option<String> {
         if !self.in_async || self.holes_left == 0 {
             return None;
         }
@@ -362,18 +380,26 @@ impl<'a> Gen<'a> {
         self.hole_id += 1;
         let k = self.hole_id;
         let r = self.rng.below(100);
-        let ans = if self.cfg.hole_errors && r < 12 {
+        let ans = if immediate_only {
+            if self.cfg.hole_errors && r < 15 {
+                Answer::Error(format!("E{}", k))
+            } else {
+                Answer::Value(json!(k * 10 + 5))
+            }
+        } else if self.cfg.hole_errors && r < 12 {
             Answer::Error(format!("E{}", k))
         } else if self.cfg.hole_deferred && r < 40 {
             Answer::DeferValue(json!(k * 10 + 1))
-        } else if self.cfg.hole_deferred && self.cfg.hole_errors && r < 47 {
+        } else if self.cfg.hole_deferred && self.cfg.hole_errors && r < 47 && self.awaited_hole {
+            // (a deferred rejection is only equivalent to the stub's throw when the hole is
+            // awaited on the spot; a kept promise that is rejected later is not)
             Answer::DeferReject(format!("R{}", k))
         } else {
             Answer::Value(json!(k * 10 + 3))
         };
         self.answers.insert(k.to_string(), ans);
         self.tag("hole");
-        Some(format!("(await __h({}))", k))
+        Some(format!("__h({})", k))
     }
 
     // ───────────── expressions ─────────────
@@ -410,7 +436,30 @@ impl<'a> Gen<'a> {
         }
         let d = d - 1;
         loop {
-            match self.rng.below(26) {
+            match self.rng.below(29) {
+                26 => {
+                    if self.in_async
+                        && let Some(f) = self.pick_var(Ty::SFun)
+                    {
+                        self.tag("sync-suspending-call");
+                        return format!("{}({})", f.name, self.num(d));
+                    }
+                }
+                27 => {
+                    if self.in_async && self.has_ctor_hole {
+                        self.tag("ctor-hole-new");
+                        let c = self.uniq_prefix.clone();
+                        return format!("(Number(new {}C({}).h) || 0)", c, self.num(d));
+                    }
+                }
+                28 => {
+                    if self.in_async
+                        && let Some(h) = self.pick_var(Ty::HVal)
+                    {
+                        self.tag("await-hval");
+                        return format!("(Number(await {}) || 0)", h.name);
+                    }
+                }
                 24 => {
                     if let Some(a) = self.pick_var(Ty::OArr) {
                         return format!("{}.length", a.name);
@@ -602,7 +651,7 @@ impl<'a> Gen<'a> {
                         return format!("String({})", h);
                     }
                 }
-                12 => return format!("typeof {}", self.num(0)),
+                12 => return format!("(typeof {})", self.num(0)),
                 _ => {
                     if self.cfg.f_string_natives {
                         return format!("{}.repeat({})", self.str_(0), self.rng.below(3));
@@ -1334,7 +1383,34 @@ impl<'a> Gen<'a> {
                     self.declare(&f, Ty::Fun, false);
                     return Node::block(format!("function {}({}: any): any {{", f, p), body, "}");
                 }
-                81..=84 if deep && self.cfg.f_async_helpers && self.in_async => {
+                81 if deep && self.in_async && self.holes_left > 0 => {
+                    // synchronous function that issues a blocking order (no await)
+                    if let Some(h) = self.hole_raw(true) {
+                        let f = self.fresh("sh");
+                        let p = self.fresh("p");
+                        self.declare(&f, Ty::SFun, false);
+                        self.tag("sync-suspending-fn");
+                        return Node::leaf(format!(
+                            "function {}({}: any): any {{ let l: any = {} + 1; {{ let l: any = 5; const t: any = {}; l = l + (Number(t) || 0); }} return l; }}",
+                            f, p, p, h
+                        ));
+                    }
+                }
+                82 if self.in_async && !self.vars_of(Ty::AFun).is_empty() => {
+                    // call an async helper without awaiting it at once
+                    if let Some(f) = self.pick_var(Ty::AFun) {
+                        let pv = self.fresh("pr");
+                        let n = self.fresh("n");
+                        let arg = self.num(1);
+                        self.declare(&n, Ty::Num, true);
+                        self.tag("async-call-not-awaited-at-once");
+                        return Node::leaf(format!(
+                            "const {pv}: any = {f}({arg}); __log.push(\"isP:\" + String({pv} instanceof Promise) + typeof {pv}.then); let {n}: any = await {pv};",
+                            pv = pv, f = f.name, arg = arg, n = n
+                        ));
+                    }
+                }
+                83..=84 if deep && self.cfg.f_async_helpers && self.in_async => {
                     // async helper with its own holes, declared then awaited later via num()
                     self.tag("async-fn");
                     let f = self.fresh("af");
@@ -1392,6 +1468,64 @@ impl<'a> Gen<'a> {
                         self.declare(&n, Ty::Num, true);
                         return Node::leaf(format!("let {}: any = {};", n, h));
                     }
+                }
+                98 if self.in_async && self.holes_left > 0 => {
+                    // raw hole kept in a variable: value or host promise
+                    if let Some(h) = self.hole_raw(false) {
+                        let n = self.fresh("h");
+                        self.declare(&n, Ty::HVal, false);
+                        self.tag("raw-hole-var");
+                        return Node::leaf(format!("const {}: any = {};", n, h));
+                    }
+                }
+                99 if self.in_async => {
+                    let hv = self.vars_of(Ty::HVal);
+                    if !hv.is_empty() || self.holes_left > 0 {
+                        // Promise.all over a constant, kept raw holes and fresh raw holes
+                        let mut items: Vec<String> = vec![format!("{}", self.small())];
+                        for v in hv.iter().take(2) {
+                            items.push(v.name.clone());
+                        }
+                        if let Some(h) = self.hole_raw(false) {
+                            items.push(h);
+                        }
+                        if self.rng.chance(0.5) {
+                            items.push("\"c\"".into());
+                        }
+                        let a = self.fresh("a");
+                        self.declare(&a, Ty::Arr, true);
+                        self.tag("promise-all");
+                        return Node::leaf(format!("let {}: any = await Promise.all([{}]);", a, items.join(", ")));
+                    }
+                }
+                90..=91 if self.cfg.f_timeish => {
+                    // clock, randomness, console and identity-keyed collections: everything a run
+                    // can observe of the outside world or of addresses
+                    self.tag("env-identity");
+                    let k = self.rng.below(8);
+                    let o = self.pick_var(Ty::Obj).map(|v| v.name).unwrap_or_else(|| "__log".into());
+                    let a = self.pick_var(Ty::Arr).map(|v| v.name).unwrap_or_else(|| "__log".into());
+                    let id = self.fresh("e");
+                    return Node::leaf(match k {
+                        0 => "__log.push(\"rnd:\" + Math.floor(Math.random() * 1000));".to_string(),
+                        1 => "__log.push(\"now:\" + (Date.now() % 100000));".to_string(),
+                        2 => format!("console.log(\"L\", {}); console.count(\"c\");", self.sync_num(1)),
+                        3 => format!(
+                            "const {id}: any = new Map<any, any>(); {id}.set({o}, 1); {id}.set({a}, 2); {id}.set({o}, 3); {id}.set({{}}, 4); __log.push(\"km:\" + {id}.size + \":\" + {id}.get({a}) + \":\" + Array.from({id}.values()).join(\"\"));"
+                        ),
+                        4 => format!(
+                            "const {id}: any = {{}}; for (let i = 0; i < 12; i++) {{ {id}[\"p\" + ((i * 7) % 12)] = i; }} __log.push(Object.keys({id}).join(\",\")); __log.push(JSON.stringify({id}));"
+                        ),
+                        5 => format!(
+                            "const {id}: any = new Set<any>([{o}, {a}, {o}, {{}}, {{}}]); __log.push(\"os:\" + {id}.size + \":\" + {id}.has({a}));"
+                        ),
+                        6 => format!(
+                            "const {id} = Symbol(\"q\"); const {id}o: any = {{ [{id}]: 1, a: 2, [Symbol.for(\"g\")]: 3 }}; __log.push(\"sy:\" + Object.getOwnPropertySymbols({id}o).length + String({id}o[{id}]) + String(Symbol.for(\"g\") === Symbol.for(\"g\")));"
+                        ),
+                        _ => format!(
+                            "const {id}: any = [{{ k: 1, t: \"a\" }}, {{ k: 0, t: \"b\" }}, {{ k: 1, t: \"c\" }}, {{ k: 0, t: \"d\" }}].sort((x: any, y: any) => x.k - y.k).map((x: any) => x.t).join(\"\"); __log.push(\"st:\" + {id});"
+                        ),
+                    });
                 }
                 92..=93 if deep && self.cfg.f_symbol => {
                     self.tag("symbol");
@@ -1459,6 +1593,15 @@ impl<'a> Gen<'a> {
                     extra.push_str(&format!(
                         " static async sm(x: any): Promise<any> {{ const t: any = {h}; return (Number(t) || 0) + {p}B.s(x) + (typeof this === \"function\" ? 1 : 0); }}"
                     ));
+                }
+            }
+            if self.holes_left > 0 && self.rng.chance(0.3) {
+                if let Some(h) = self.hole_raw(true) {
+                    self.has_ctor_hole = true;
+                    self.tag("ctor-hole");
+                    decls.push(Node::leaf(format!(
+                        "class {p}C {{ h: any; x: any; constructor(x: any) {{ this.x = x; this.h = {h}; this.x = (Number(this.h) || 0) + x; }} }}"
+                    )));
                 }
             }
             self.in_async = false;
